@@ -42,7 +42,7 @@ def balance_writes(body, fa):
 
 def run(prog, tier, extra=None):
     res = Result("C19", "other")
-    R1 = res.rule("C19.co-mutation", "a body that changes Wallet.unspent_slips changes available_balance in the matching direction and vice versa", floor=7)
+    R1 = res.rule("C19.co-mutation", "a body that changes Wallet.unspent_slips changes available_balance in the matching direction and vice versa", floor=4)
     R3 = res.rule("C19.per-iteration", "loops that spend slips subtract the amount and queue the removal together in each iteration", floor=1)
     R4 = res.rule("C19.sub-without-removal", "every path that subtracts from the balance removes a slip from the unspent list", floor=2)
     R5 = res.rule("C19.reserve-then-fail", "after Wallet::generate_slips reserved slips no caller returns an error (nothing would be pending for them)", floor=2)
